@@ -476,7 +476,12 @@ var longHistories = map[string][]string{
 	"hashed-static-weights":                {"static", "hcall7", "mcall7", "hcall123456", "mcall8", "hcall99", "mcall9", "hcall4000000000", "mcall10", "hcall2000000000", "mcall11", "hcall3000000000", "mcall12", "call", "call", "set1=r", "hcall7", "mcall7", "hcall7", "mcall8", "hcall7", "mcall9", "hcall7", "mcall7", "hcall7", "mcall7", "adv5", "adv1", "hcall7", "mcall7", "hcall123456", "mcall8"},
 	"hashed-reweighted": {"static", "hcall7", "mcall7", "mcall8", "mcall9", "hcall99", "rew", "hcall7", "mcall7", "mcall8", "mcall9", "mcall10", "mcall11", "hcall99", "hcall123456", "hcall4000000000",
 		"rew", "mcall7", "mcall8", "mcall9", "hcall7", "hcall99", "hcall2000000000"},
-	"hashed": {"set1=r", "hcall7", "hcall7", "hcall123456", "hcall7", "hcall99", "hcall7", "hcall7", "hcall99", "hcall7", "hcall7", "adv5", "adv1", "hcall7", "hcall99", "set1=h", "adv30", "hcall7", "hcall99"},
+	// an endpoint is blocked, then the registry publishes a changed list that still contains it
+	"blocked-then-reweighted": {"static", "set1=r", "call", "call", "call", "call", "call", "call", "call", "call", "call", "call", "call", "call", "call", "call", "call", "call", "call", "call", "call", "call", "call", "call", "call", "call", "call", "call", "call", "call", "call", "call",
+		"adv5", "adv1", "call", "call", "rew", "mcall7", "mcall8", "mcall9", "mcall10", "mcall11", "mcall12", "hcall7", "hcall99", "hcall123456", "call", "call", "call"},
+	// many good calls first: the failures that follow are less than half of all calls, the consecutive-failure rule alone must act
+	"healthy-then-dead": {"call", "call", "call", "call", "call", "call", "call", "call", "call", "call", "call", "call", "call", "call", "call", "call", "call", "call", "call", "call", "call", "call", "call", "call", "set0=r", "call", "call", "call", "call", "call", "call", "call", "call", "call", "call", "adv5", "adv1", "call", "call", "call", "call", "adv1", "call", "call", "adv5", "call", "call"},
+	"hashed":            {"set1=r", "hcall7", "hcall7", "hcall123456", "hcall7", "hcall99", "hcall7", "hcall7", "hcall99", "hcall7", "hcall7", "adv5", "adv1", "hcall7", "hcall99", "set1=h", "adv30", "hcall7", "hcall99"},
 }
 
 func alphabet(n int, thorough bool) []string {
